@@ -570,6 +570,22 @@ pub struct StoreDesc {
     pub stale_tail: bool,
     /// append a torn entry at the very end
     pub torn_tail: bool,
+    /// kept entries flagged partial although a later kept entry completes their batch (bit i%16 for
+    /// entry i; the last kept entry is never flagged): complete atomic batches in the middle of the log
+    #[serde(default)]
+    pub partial_mask: u16,
+    /// selector of the fork counter the storage carries (JavaScript cores that were truncated have
+    /// fork > 0): headers, upgrade entries and signatures all use it
+    #[serde(default)]
+    pub fork_sel: u8,
+}
+
+pub const FORKS: [u64; 8] = [0, 0, 0, 0, 0, 1, 2, 300];
+
+impl StoreDesc {
+    pub fn fork(&self) -> u64 {
+        FORKS[self.fork_sel as usize % FORKS.len()]
+    }
 }
 
 pub struct Synth {
@@ -591,8 +607,8 @@ impl Fold {
     }
 }
 
-fn sign_at(tree: &RefTree, len: u64, sk: &SigningKey) -> Vec<u8> {
-    sk.sign(&tree.signable_at(len, 0)).to_bytes().to_vec()
+fn sign_at(tree: &RefTree, len: u64, fork: u64, sk: &SigningKey) -> Vec<u8> {
+    sk.sign(&tree.signable_at(len, fork)).to_bytes().to_vec()
 }
 
 /// Nodes completed by appending blocks [from, to): leaves and parents, in the order the
@@ -625,6 +641,7 @@ pub fn synthesize(desc: &StoreDesc, sk_seed: &[u8; 32]) -> Synth {
     let n_ops = desc.ops.len() as u64;
     let f = sel(desc.flush_sel, n_ops + 1) as usize; // ops[..f] folded into the header
     let older = sel(desc.older_sel, f as u64 + 1) as usize;
+    let fork = desc.fork();
 
     let mut fold = Fold::new();
     let mut bits: BTreeMap<u64, Vec<u8>> = BTreeMap::new();
@@ -637,10 +654,10 @@ pub fn synthesize(desc: &StoreDesc, sk_seed: &[u8; 32]) -> Synth {
             key: pk,
             public_key: pk,
             secret: if desc.with_secret { Some(*sk_seed) } else { None },
-            fork: 0,
+            fork,
             length: len,
             root_hash: if len == 0 { vec![] } else { fold.tree.tree_hash_at(len).to_vec() },
-            signature: if len == 0 { vec![] } else { sign_at(&fold.tree, len, &sk) },
+            signature: if len == 0 { vec![] } else { sign_at(&fold.tree, len, fork, &sk) },
             contiguous_length: fold.model.contiguous(),
         }
     };
@@ -688,7 +705,7 @@ pub fn synthesize(desc: &StoreDesc, sk_seed: &[u8; 32]) -> Synth {
                 } else {
                     entries.push(REntry {
                         nodes,
-                        upgrade: Some(RUpgrade { fork: 0, ancestors: from, length: to, signature: sign_at(&fold.tree, to, &sk) }),
+                        upgrade: Some(RUpgrade { fork, ancestors: from, length: to, signature: sign_at(&fold.tree, to, fork, &sk) }),
                         bitfield: Some(RBitfield { drop: false, start: from, length: to - from }),
                     });
                 }
@@ -746,6 +763,7 @@ pub fn synthesize(desc: &StoreDesc, sk_seed: &[u8; 32]) -> Synth {
     // expected model = replay ops[..f] and the first `kept` entry-producing ops
     let mut expected = crate::model::ListModel::new();
     expected.writeable = desc.with_secret;
+    expected.fork = fork;
     {
         let mut entry_ops = 0usize;
         for (k, op) in desc.ops.iter().enumerate() {
@@ -804,7 +822,7 @@ pub fn synthesize(desc: &StoreDesc, sk_seed: &[u8; 32]) -> Synth {
     oplog[other_off..other_off + other_bytes.len()].copy_from_slice(&other_bytes);
     let n_entries = entries.len();
     for (i, e) in entries.iter().enumerate() {
-        let partial = i >= kept;
+        let partial = i >= kept || (i + 1 < kept && (desc.partial_mask >> (i % 16)) & 1 == 1);
         oplog.extend_from_slice(&record(&encode_entry(e), entry_bit, partial));
     }
     if desc.stale_tail {
